@@ -2,10 +2,10 @@ package main
 
 import (
 	"fmt"
-	"sync"
 	"net"
 	"sort"
 	"strings"
+	"sync"
 
 	"github.com/spikeekips/mitum/base"
 	"github.com/spikeekips/mitum/network/quicmemberlist"
